@@ -80,7 +80,8 @@ func loadFormat(data []byte) (format uint8, read int, err error) {
 	if err != nil {
 		return 0, 0, err
 	}
-	if len(data) <= read {
+	// Only raw data may be empty.
+	if len(data) <= read && format != RAW {
 		return 0, 0, io.ErrUnexpectedEOF
 	}
 
